@@ -137,45 +137,46 @@ fn server_orders(cfg: &Cfg, rng: &mut Rng) {
         if !cfg.mine(si as u64) {
             continue;
         }
-        let (peer, mut srv, be) = util::raw_server(Script { protocol_features: ops::ALL_PF, ..Script::default() });
-        let mut acked_pf = 0u64;
-        let mut acked_virtio = 0u64;
-        for i in seq {
-            let s = &alpha[*i];
-            match &s.op {
-                ROp::Fe(FeOp::SetFeatures(v)) => acked_virtio = *v,
-                ROp::Fe(FeOp::SetProtocolFeatures(v)) => acked_pf = *v,
-                _ => {}
-            }
-            if let Ok(mut o) = c04::send_sym(&peer, &mut srv, &be, s, spec::VIRTIO_F_PROTOCOL_FEATURES | 3) {
-                for m in o.msgs.iter_mut() {
-                    m.close_fds();
+        // every gated probe after this negotiation order (the order is replayed for each probe)
+        for (pi, p) in probes.iter().enumerate() {
+            let (peer, mut srv, be) = util::raw_server(Script { protocol_features: ops::ALL_PF, ..Script::default() });
+            let mut acked_pf = 0u64;
+            let mut acked_virtio = 0u64;
+            for i in seq {
+                let s = &alpha[*i];
+                match &s.op {
+                    ROp::Fe(FeOp::SetFeatures(v)) => acked_virtio = *v,
+                    ROp::Fe(FeOp::SetProtocolFeatures(v)) => acked_pf = *v,
+                    _ => {}
+                }
+                if let Ok(mut o) = c04::send_sym(&peer, &mut srv, &be, s, spec::VIRTIO_F_PROTOCOL_FEATURES | 3) {
+                    for m in o.msgs.iter_mut() {
+                        m.close_fds();
+                    }
                 }
             }
-        }
-        // the probe at the end of this prefix (every prefix of every sequence is itself enumerated)
-        let p = &probes[si % probes.len()];
-        let admitted = match p.gate_pf() {
-            Some(bit) => acked_pf & bit != 0,
-            None => acked_virtio & spec::VIRTIO_F_PROTOCOL_FEATURES != 0,
-        };
-        if let Ok(mut obs) = c04::send_sym(&peer, &mut srv, &be, &sym(p.clone()), spec::VIRTIO_F_PROTOCOL_FEATURES | 3) {
-            report::eval(1);
-            report::distinct(report::hash_mix(report::hash_str(&format!("order:{seq:?}")), report::hash_str(&p.name())));
-            report::count("srv.order_probes", 1);
-            let called = obs.handler_calls.len();
-            if (admitted && called != 1) || (!admitted && called != 0) {
-                report::violation(
-                    &format!("C07:srv-order:{}:{}", p.name(), if admitted { "negotiated-but-not-dispatched" } else { "dispatched-without-feature" }),
-                    jo! {"order" => seq.iter().map(|i| alpha[*i].short()).collect::<Vec<String>>(), "request" => p.j(), "acked_pf" => J::x64(acked_pf), "acked_virtio" => J::x64(acked_virtio), "handler_calls" => called},
-                    cfg.replay(&format!("srvorder:{si}")),
-                );
-            }
-            if si % 211 == 0 {
-                report::sample("srv.order", jo! {"side" => "backend-server", "order" => seq.iter().map(|i| alpha[*i].short()).collect::<Vec<String>>(), "probe" => p.name(), "admitted" => admitted});
-            }
-            for m in obs.msgs.iter_mut() {
-                m.close_fds();
+            let admitted = match p.gate_pf() {
+                Some(bit) => acked_pf & bit != 0,
+                None => acked_virtio & spec::VIRTIO_F_PROTOCOL_FEATURES != 0,
+            };
+            if let Ok(mut obs) = c04::send_sym(&peer, &mut srv, &be, &sym(p.clone()), spec::VIRTIO_F_PROTOCOL_FEATURES | 3) {
+                report::eval(1);
+                report::distinct(report::hash_mix(report::hash_str(&format!("order:{seq:?}")), report::hash_str(&p.name())));
+                report::count("srv.order_probes", 1);
+                let called = obs.handler_calls.len();
+                if (admitted && called != 1) || (!admitted && called != 0) {
+                    report::violation(
+                        &format!("C07:srv-order:{}:{}", p.name(), if admitted { "negotiated-but-not-dispatched" } else { "dispatched-without-feature" }),
+                        jo! {"order" => seq.iter().map(|i| alpha[*i].short()).collect::<Vec<String>>(), "request" => p.j(), "acked_pf" => J::x64(acked_pf), "acked_virtio" => J::x64(acked_virtio), "handler_calls" => called},
+                        cfg.replay(&format!("srvorder:{si}")),
+                    );
+                }
+                if si % 211 == 0 && pi == 0 {
+                    report::sample("srv.order", jo! {"side" => "backend-server", "order" => seq.iter().map(|i| alpha[*i].short()).collect::<Vec<String>>(), "probe" => p.name(), "admitted" => admitted});
+                }
+                for m in obs.msgs.iter_mut() {
+                    m.close_fds();
+                }
             }
         }
     }
@@ -363,53 +364,55 @@ fn frontend_orders(cfg: &Cfg, rng: &mut Rng) {
         if !cfg.mine(si as u64) {
             continue;
         }
-        let (mut f, peer) = util::raw_frontend(8);
-        let mut st = FeState { offered_virtio_pf: false, acked_virtio_pf: false, acked_pf: 0 };
-        for a in seq {
-            match a {
-                0 | 1 => {
-                    let v = if *a == 0 { spec::VIRTIO_F_PROTOCOL_FEATURES | 1 } else { 1 };
-                    preload(&peer, fe::GET_FEATURES, &spec::p_u64(v), None);
-                    let _ = f.get_features();
-                    st.offered_virtio_pf = *a == 0;
-                }
-                2 | 3 => {
-                    let v = if *a == 2 { spec::VIRTIO_F_PROTOCOL_FEATURES | 1 } else { 1 };
-                    let _ = f.set_features(v);
-                    // "acknowledged" virtio bit = requested and offered at that moment
-                    st.acked_virtio_pf = *a == 2 && st.offered_virtio_pf;
-                }
-                4 => {
-                    if st.offered_virtio_pf {
-                        preload(&peer, fe::GET_PROTOCOL_FEATURES, &spec::p_u64(ops::ALL_PF), None);
+        // every gated operation after this order of negotiation calls (replayed for each probe)
+        for (pi, op) in probes.iter().enumerate() {
+            let (mut f, peer) = util::raw_frontend(8);
+            let mut st = FeState { offered_virtio_pf: false, acked_virtio_pf: false, acked_pf: 0 };
+            for a in seq {
+                match a {
+                    0 | 1 => {
+                        let v = if *a == 0 { spec::VIRTIO_F_PROTOCOL_FEATURES | 1 } else { 1 };
+                        preload(&peer, fe::GET_FEATURES, &spec::p_u64(v), None);
+                        let _ = f.get_features();
+                        st.offered_virtio_pf = *a == 0;
                     }
-                    let _ = f.get_protocol_features();
-                }
-                _ => {
-                    let v = match a {
-                        5 => ops::ALL_PF,
-                        6 => 0,
-                        _ => spec::PF_CONFIG | spec::PF_MQ,
-                    };
-                    let r = f.set_protocol_features(VhostUserProtocolFeatures::from_bits_retain(v));
-                    if st.offered_virtio_pf {
-                        if r.is_ok() {
-                            st.acked_pf = v;
+                    2 | 3 => {
+                        let v = if *a == 2 { spec::VIRTIO_F_PROTOCOL_FEATURES | 1 } else { 1 };
+                        let _ = f.set_features(v);
+                        // "acknowledged" virtio bit = requested by the latest SET_FEATURES and offered
+                        st.acked_virtio_pf = *a == 2 && st.offered_virtio_pf;
+                    }
+                    4 => {
+                        if st.offered_virtio_pf {
+                            preload(&peer, fe::GET_PROTOCOL_FEATURES, &spec::p_u64(ops::ALL_PF), None);
                         }
-                    } else if r.is_ok() {
-                        report::violation("C07:fe-order:set_protocol_features:succeeded-without-feature", jo! {"order" => format!("{seq:?}")}, cfg.replay(&format!("feorder:{si}")));
+                        let _ = f.get_protocol_features();
+                    }
+                    _ => {
+                        let v = match a {
+                            5 => ops::ALL_PF,
+                            6 => 0,
+                            _ => spec::PF_CONFIG | spec::PF_MQ,
+                        };
+                        let r = f.set_protocol_features(VhostUserProtocolFeatures::from_bits_retain(v));
+                        if st.offered_virtio_pf {
+                            if r.is_ok() {
+                                st.acked_pf = v;
+                            }
+                        } else if r.is_ok() && pi == 0 {
+                            report::violation("C07:fe-order:set_protocol_features:succeeded-without-feature", jo! {"order" => format!("{seq:?}")}, cfg.replay(&format!("feorder:{si}")));
+                        }
                     }
                 }
+                let mut d = sys::drain_nb(peer.as_raw_fd());
+                d.close_fds();
             }
-            let mut d = sys::drain_nb(peer.as_raw_fd());
-            d.close_fds();
-        }
-        let op = &probes[si % probes.len()];
-        report::distinct(report::hash_mix(report::hash_str(&format!("feorder:{seq:?}")), report::hash_str(op.name())));
-        report::count("fe.order_probes", 1);
-        fe_probe(cfg, &mut f, &peer, op, &st, &format!("feorder:{si}"), rng);
-        if si % 301 == 0 {
-            report::sample("fe.order", jo! {"side" => "frontend", "order" => format!("{seq:?}"), "probe" => op.name(), "allowed" => fe_allowed(op, &st)});
+            report::distinct(report::hash_mix(report::hash_str(&format!("feorder:{seq:?}")), report::hash_str(op.name())));
+            report::count("fe.order_probes", 1);
+            fe_probe(cfg, &mut f, &peer, op, &st, &format!("feorder:{si}"), rng);
+            if si % 301 == 0 && pi == 0 {
+                report::sample("fe.order", jo! {"side" => "frontend", "order" => format!("{seq:?}"), "probe" => op.name(), "allowed" => fe_allowed(op, &st)});
+            }
         }
     }
 }
